@@ -198,7 +198,9 @@ def run_check(pid: str, tier: str, base_seed: int, engine: Any, arg: Dict[str, A
     cov["simulated_time"] = "no clock in this engine: progress is counted in logical steps (reach_probes)"
     if extra_cov:
         cov.update(extra_cov(good))
-    runner.write_evidence(pid, tier, base_seed, level, cov, wall, n_viol, assumptions)
+    if not os.environ.get("VERIF_REPO_SRC"):
+        # (a sensitivity run against a scratch copy of the library is not evidence about /repo)
+        runner.write_evidence(pid, tier, base_seed, level, cov, wall, n_viol, assumptions)
     for ln in lines:
         print(ln)
     print(f"{pid} {tier}: seeds={len(good)}/{n_seeds} runs={runs} distinct_nontrivial={len(sigs)} violations={n_viol} "
